@@ -139,7 +139,7 @@ def arith(interp, op, a, b):
         return mk(ta * tb, k)
     if op in ('/', '//', '%'):
         zero = tb == 0
-        if interp.branch(zero, 'div-by-zero'):
+        if not interp.spec_mode and interp.branch(zero, 'div-by-zero'):      # specs: total division (guard in the clause)
             interp.raise_builtin('ZeroDivisionError', 'division by zero')
         if op == '/':
             return mk(ta / tb, 'real')
